@@ -84,8 +84,17 @@ func RunWorker(e Engine, tier string, batch uint64, lo, hi, stride int, deadline
 			again := e.Exec(s, false)
 			out.DetChecked++
 			if again.LogHash != res.LogHash || (again.Violation == nil) != (res.Violation == nil) {
-				out.Trouble = fmt.Sprintf("nondeterministic execution of run %d: log hash %s vs %s", idx, res.LogHash, again.LogHash)
-				break
+				// Keep going: if the code under test corrupts process-wide state the
+				// executions legitimately differ, and the violations found (each of
+				// which must still reproduce in a fresh process) are what matters.
+				// Without a reproducible violation this ends as harness trouble.
+				if out.Trouble == "" {
+					out.Trouble = fmt.Sprintf("nondeterministic execution of run %d: log hash %s vs %s", idx, res.LogHash, again.LogHash)
+				}
+				out.Extra["determinism_mismatches"]++
+				if res.Violation == nil && again.Violation != nil {
+					res = again
+				}
 			}
 		}
 		if res.Violation != nil {
@@ -98,8 +107,22 @@ func RunWorker(e Engine, tier string, batch uint64, lo, hi, stride int, deadline
 				out.Extra["violations_beyond_cap"]++
 				continue
 			}
-			min := Minimize(e, s, sig, 4000)
-			r2 := e.Exec(min, false)
+			var min *Script
+			var r2 *Result
+			if ps, ok := e.(ProcessStateful); ok && ps.ProcessStateful() {
+				// confirm and minimise in fresh processes only
+				min, r2 = isolatedMinimize(s, sig, bitmapPath+".cand.json")
+				if min == nil {
+					out.Extra["violations_not_reproducible_in_a_fresh_process"]++
+					if out.Trouble == "" {
+						out.Trouble = fmt.Sprintf("run %d reported %s in this process but a fresh process does not reproduce it", idx, sig)
+					}
+					continue
+				}
+			} else {
+				min = Minimize(e, s, sig, 4000)
+				r2 = e.Exec(min, false)
+			}
 			if p, ok := e.(Pinner); ok && r2.Violation != nil {
 				if pinned := p.Pin(min, r2); pinned != nil {
 					if r3 := e.Exec(pinned, false); r3.Violation != nil && r3.Violation.Signature == sig {
